@@ -397,4 +397,108 @@ theorem shr_and_one (m i : Nat) : ((m >>> i) &&& 1 ≠ 0) ↔ m.testBit i = true
   rw [Nat.and_comm]; simp
 
 
+/-! ### `while mask != 0 { ctz; …; mask &= mask - 1 }` visits the set lanes in ascending order -/
+
+theorem ctzGo_pow_mul_odd (m : Nat) : ∀ k f, k < f → ctzGo f (2 ^ k * (1 + 2 * m)) = k := by
+  intro k
+  induction k with
+  | zero =>
+    intro f hf
+    cases f with
+    | zero => omega
+    | succ f => rw [ctzGo_succ, if_pos (by simp)]
+  | succ k ih =>
+    intro f hf
+    cases f with
+    | zero => omega
+    | succ f =>
+      rw [ctzGo_succ, Nat.pow_succ]
+      have h2 : 2 ^ k * 2 * (1 + 2 * m) = 2 * (2 ^ k * (1 + 2 * m)) := by
+        rw [Nat.mul_comm (2 ^ k) 2, Nat.mul_assoc]
+      rw [h2, if_neg (by omega), show 2 * (2 ^ k * (1 + 2 * m)) / 2 = 2 ^ k * (1 + 2 * m) by omega,
+        ih f (by omega)]
+      omega
+
+theorem and_pred_double (y : Nat) (hy : 0 < y) : (2 * y) &&& (2 * y - 1) = 2 * (y &&& (y - 1)) := by
+  apply Nat.eq_of_testBit_eq
+  intro i
+  cases i with
+  | zero =>
+    rw [Nat.testBit_and, Nat.testBit_zero, Nat.testBit_zero, Nat.testBit_zero]
+    have h1 : 2 * y % 2 = 0 := by omega
+    have h2 : 2 * (y &&& y - 1) % 2 = 0 := by omega
+    rw [h1, h2]; simp
+  | succ i =>
+    rw [Nat.testBit_and, Nat.testBit_succ, Nat.testBit_succ, Nat.testBit_succ]
+    rw [show 2 * y / 2 = y by omega, show (2 * y - 1) / 2 = y - 1 by omega,
+      show 2 * (y &&& y - 1) / 2 = (y &&& y - 1) by omega, Nat.testBit_and]
+
+theorem and_pred_odd (m : Nat) : (1 + 2 * m) &&& (1 + 2 * m - 1) = 2 * m := by
+  apply Nat.eq_of_testBit_eq
+  intro i
+  cases i with
+  | zero =>
+    rw [Nat.testBit_and, Nat.testBit_zero, Nat.testBit_zero, Nat.testBit_zero]
+    simp
+  | succ i =>
+    rw [Nat.testBit_and, Nat.testBit_succ, Nat.testBit_succ, Nat.testBit_succ]
+    rw [show (1 + 2 * m) / 2 = m by omega, show (1 + 2 * m - 1) / 2 = m by omega,
+      show 2 * m / 2 = m by omega]
+    simp
+
+/-- `mask &= mask - 1` clears the lowest set bit. -/
+theorem clear_lowest (m : Nat) : ∀ k, (2 ^ k * (1 + 2 * m)) &&& (2 ^ k * (1 + 2 * m) - 1) = 2 ^ (k + 1) * m := by
+  intro k
+  induction k with
+  | zero => simp only [Nat.pow_zero, Nat.one_mul, Nat.zero_add, Nat.pow_one]; exact and_pred_odd m
+  | succ k ih =>
+    have hpos : 0 < 2 ^ k * (1 + 2 * m) := Nat.mul_pos (Nat.pow_pos (by decide)) (by omega)
+    have h2 : 2 ^ (k + 1) * (1 + 2 * m) = 2 * (2 ^ k * (1 + 2 * m)) := by
+      rw [Nat.pow_succ, Nat.mul_comm (2 ^ k) 2, Nat.mul_assoc]
+    rw [h2, and_pred_double _ hpos, ih]
+    rw [show 2 ^ (k + 1 + 1) = 2 * 2 ^ (k + 1) by rw [Nat.pow_succ, Nat.mul_comm], Nat.mul_assoc]
+
+/-- Visiting the set lanes of a chunk in ascending order (what the `while nl_mask != 0` loop does). -/
+def laneLoop (test : Nat → Option Nat) (pos : Nat) : List Byte → Nat → Option Nat
+  | [], _ => none
+  | l :: ls, k =>
+    if l.msb then
+      match test (pos + k + 1) with
+      | some r => some r
+      | none => laneLoop test pos ls (k + 1)
+    else laneLoop test pos ls (k + 1)
+
+theorem nlMaskLoop_succ (test : Nat → Option Nat) (pos fuel m : Nat) :
+    nlMaskLoop test pos (fuel + 1) m =
+      if m = 0 then none
+      else match test (pos + ctz32 m + 1) with
+        | some r => some r
+        | none => nlMaskLoop test pos fuel (m &&& (m - 1)) := rfl
+
+theorem nlMaskLoop_lanes (test : Nat → Option Nat) (pos : Nat) (lanes : List Byte) :
+    ∀ k fuel, lanes.length < fuel → k + lanes.length ≤ 32 →
+    nlMaskLoop test pos fuel (2 ^ k * movemask lanes) = laneLoop test pos lanes k := by
+  induction lanes with
+  | nil =>
+    intro k fuel hf _
+    cases fuel with
+    | zero => simp at hf
+    | succ fuel => rw [nlMaskLoop_succ, movemask_nil, Nat.mul_zero, if_pos rfl]; rfl
+  | cons l ls ih =>
+    intro k fuel hf hk
+    simp only [List.length_cons] at hf hk
+    rw [movemask_cons]
+    cases h : l.msb
+    · simp only [Bool.false_eq_true, if_false, Nat.zero_add, laneLoop, h]
+      rw [← ih (k + 1) fuel (by omega) (by omega), Nat.pow_succ, Nat.mul_assoc]
+    · simp only [if_true, laneLoop, h]
+      cases fuel with
+      | zero => omega
+      | succ fuel =>
+        have hpos : 0 < 2 ^ k * (1 + 2 * movemask ls) := Nat.mul_pos (Nat.pow_pos (by decide)) (by omega)
+        rw [nlMaskLoop_succ, if_neg (by omega)]
+        have hc : ctz32 (2 ^ k * (1 + 2 * movemask ls)) = k := ctzGo_pow_mul_odd _ k 32 (by omega)
+        rw [hc, clear_lowest, ih (k + 1) fuel (by omega) (by omega)]
+
+
 end SV.Yaml
